@@ -839,10 +839,10 @@ func (rr *roundRec) evalLifetime(lt *lifetimeRec) {
 			}
 			e, c := it.Key.Epoch, tx.clock
 			if w.active(e, c) {
-				rec.violation("claim-in-active-window", fmt.Sprintf("epoch=clock-%d*epoch dist=%d*epoch", (c-e)/w.E, w.K),
+				rec.violation("claim-in-active-window", "epoch-inside-active-window",
 					fmt.Sprintf("claim for %s cu=%d submitted at epoch clock %d: epoch %d is still inside the active window (clock - %d)", it.Key, it.Cu, c, e, w.dist()), rr.witness(lt, it.Key))
 			} else if e < w.earliest(c) {
-				rec.violation("claim-out-of-chain-memory", fmt.Sprintf("epoch<earliest memory=%d*epoch", w.Mm),
+				rec.violation("claim-out-of-chain-memory", "epoch-below-earliest-in-memory",
 					fmt.Sprintf("claim for %s cu=%d submitted at epoch clock %d: earliest epoch in chain memory is %d", it.Key, it.Cu, c, w.earliest(c)), rr.witness(lt, it.Key))
 			} else {
 				if e+w.dist() == c {
@@ -1391,6 +1391,10 @@ func runCrashScenario(rec *recorder, seed int64, round int, sc crashScenario, cl
 		} else if ee.ExitCode() == rewardserver.VerifCrashExitCode {
 			how = fmt.Sprintf("crash point %s:%d", sc.Point, sc.N)
 			classes["child_died_at_crash_point:"+sc.Point]++
+		} else if ee.ExitCode() == 66 {
+			// the race detector's exit code: the child ran to its end (crash point / kill op never reached)
+			// and a race had been reported on the way (reports are counted from the GORACE logs)
+			classes["child_crash_point_not_reached"]++
 		} else {
 			rec.Inconclusive = append(rec.Inconclusive, fmt.Sprintf("crash child ended unexpectedly (%v) scenario %+v: %s", werr, sc, tail(stderr.String(), 600)))
 			return
